@@ -284,7 +284,7 @@ func (p *Path) concretize(t *Term, what string) uint64 {
 			continue
 		}
 		if excluded >= p.cfg.MaxValues {
-			panic(p.unsupported("concretize(%s): more than %d feasible values", what, p.cfg.MaxValues))
+			panic(p.unsupported("concretize(%s): more than %d feasible values of %s", what, p.cfg.MaxValues, Pretty(t, 160)))
 		}
 		p.res.Decisions++
 		r := p.w.solver.CheckWith(p.pc, nil, true, t)
